@@ -1,4 +1,6 @@
 import Libvna.Model.LinAlg
+import Libvna.Props.C19
+import Mathlib.GroupTheory.Perm.Sign
 import Mathlib.Algebra.BigOperators.Group.Finset.Basic
 import Mathlib.Algebra.BigOperators.Intervals
 import Mathlib.Tactic.Ring
@@ -204,4 +206,424 @@ theorem scaleCol_spec (a : Array K) {n j : Nat} (scale : K) (hs : a.size = n * n
         have : i ≠ j + 1 + m := fun e => h ⟨e.symm, hcj.symm⟩
         exact h' ⟨hcj, h3, by omega⟩
 
+/-! ### one column of the Crout loop, on entry functions -/
+
+/-- the row exchange as a map on row numbers -/
+def sw (b j i : Nat) : Nat := if i = b then j else if i = j then b else i
+
+theorem sw_lt {b j i : Nat} (hi : i < j) (hb : j ≤ b) : sw b j i = i := by unfold sw; split_ifs <;> omega
+theorem sw_bound {n b j i : Nat} (hb : b < n) (hj : j < n) (hi : i < n) : sw b j i < n := by unfold sw; split_ifs <;> omega
+theorem sw_ge {b j i : Nat} (hb : j ≤ b) (hi : j ≤ i) : j ≤ sw b j i := by unfold sw; split_ifs <;> omega
+theorem sw_sw (b j i : Nat) : sw b j (sw b j i) = i := by unfold sw; split_ifs <;> omega
+
+/-- **one column preserves the Crout invariant.**  `G` are the entries before the column, `G1..G4` after the four phases
+    (U part, L part, row exchange with row `b`, scaling), `A0 (p i) c` is the input matrix with its rows in the current order. -/
+theorem col_step_fun {A0 : Nat → Nat → K} {n j b : Nat} {p : Nat → Nat} {G G1 G2 G3 G4 : Nat → Nat → K}
+    (hj : j < n) (hb1 : j ≤ b) (hb2 : b < n)
+    (hR : ∀ i c, i < n → c < n → j ≤ c → G i c = A0 (p i) c)
+    (hU : ∀ i c, c < j → i ≤ c → G i c = A0 (p i) c - ∑ k ∈ range i, G i k * G k c)
+    (hL : ∀ i c, c < j → c < i → i < n → G i c = (A0 (p i) c - ∑ k ∈ range c, G i k * G k c) / G c c)
+    (h1a : ∀ i c, i < n → c < n → ¬ (c = j ∧ i < j) → G1 i c = G i c)
+    (h1b : ∀ i, i < j → G1 i j = G i j - ∑ k ∈ range i, G i k * G1 k j)
+    (h2 : ∀ i c, i < n → c < n → G2 i c = if c = j ∧ j ≤ i then G1 i j - ∑ k ∈ range j, G1 i k * G1 k j else G1 i c)
+    (h3 : ∀ i c, i < n → c < n → G3 i c = G2 (sw b j i) c)
+    (h4 : ∀ i c, i < n → c < n → G4 i c = if c = j ∧ j < i then G3 i j * (1 / G3 j j) else G3 i c) :
+    (∀ i c, i < n → c < n → j + 1 ≤ c → G4 i c = A0 (p (sw b j i)) c) ∧
+    (∀ i c, c < j + 1 → i ≤ c → G4 i c = A0 (p (sw b j i)) c - ∑ k ∈ range i, G4 i k * G4 k c) ∧
+    (∀ i c, c < j + 1 → c < i → i < n →
+        G4 i c = (A0 (p (sw b j i)) c - ∑ k ∈ range c, G4 i k * G4 k c) / G4 c c) := by
+  have swn : ∀ i, i < n → sw b j i < n := fun i hi => sw_bound hb2 hj hi
+  -- F1: away from column j the column only sees the row exchange
+  have F1 : ∀ i c, i < n → c < n → c ≠ j → G4 i c = G (sw b j i) c := by
+    intro i c hi hc hcj
+    rw [h4 i c hi hc, if_neg (fun h => hcj h.1), h3 i c hi hc, h2 _ c (swn i hi) hc, if_neg (fun h => hcj h.1),
+      h1a _ c (swn i hi) hc (fun h => hcj h.1)]
+  -- F2: the U part of column j
+  have F2 : ∀ i, i < j → G4 i j = G1 i j := by
+    intro i hi
+    have hin : i < n := by omega
+    rw [h4 i j hin hj, if_neg (by omega), h3 i j hin hj, sw_lt hi hb1, h2 i j hin hj, if_neg (by omega)]
+  -- F3: the unscaled L part of column j, in terms of the final entries
+  have F3 : ∀ i, j ≤ i → i < n →
+      G2 (sw b j i) j = A0 (p (sw b j i)) j - ∑ k ∈ range j, G4 i k * G4 k j := by
+    intro i hji hi
+    have hs := swn i hi
+    have hsj : j ≤ sw b j i := sw_ge hb1 hji
+    rw [h2 _ j hs hj, if_pos ⟨rfl, hsj⟩, h1a _ j hs hj (by omega), hR _ j hs hj (le_refl _)]
+    congr 1
+    apply sum_congr rfl
+    intro k hk
+    have hk' : k < j := mem_range.mp hk
+    rw [h1a _ k hs (by omega) (by omega), F1 i k hi (by omega) (by omega), F2 k hk']
+  have F4 : G4 j j = A0 (p (sw b j j)) j - ∑ k ∈ range j, G4 j k * G4 k j := by
+    rw [h4 j j hj hj, if_neg (by omega), h3 j j hj hj, F3 j (le_refl _) hj]
+  refine ⟨?_, ?_, ?_⟩
+  · intro i c hi hc hjc
+    rw [F1 i c hi hc (by omega), hR _ c (swn i hi) hc (by omega)]
+  · intro i c hc hic
+    rcases Nat.lt_or_ge c j with hcj | hcj
+    · have hij : i < j := by omega
+      rw [F1 i c (by omega) (by omega) (by omega), sw_lt hij hb1, hU i c hcj hic]
+      congr 1
+      apply sum_congr rfl
+      intro k hk
+      have hk' : k < i := mem_range.mp hk
+      rw [F1 i k (by omega) (by omega) (by omega), sw_lt hij hb1, F1 k c (by omega) (by omega) (by omega),
+        sw_lt (show k < j by omega) hb1]
+    · have hcj' : c = j := by omega
+      subst hcj'
+      rcases Nat.lt_or_ge i c with hij | hij
+      · rw [F2 i hij, h1b i hij, hR i c (by omega) hj (le_refl _), sw_lt hij hb1]
+        congr 1
+        apply sum_congr rfl
+        intro k hk
+        have hk' : k < i := mem_range.mp hk
+        rw [F1 i k (by omega) (by omega) (by omega), sw_lt hij hb1, F2 k (by omega)]
+      · have : i = c := by omega
+        subst this
+        exact F4
+  · intro i c hc hci hi
+    rcases Nat.lt_or_ge c j with hcj | hcj
+    · have hcs : c < sw b j i := by
+        rcases Nat.lt_or_ge i j with hij | hij
+        · rw [sw_lt hij hb1]; exact hci
+        · have := sw_ge hb1 hij; omega
+      rw [F1 i c hi (by omega) (by omega), hL _ c hcj hcs (swn i hi)]
+      have hcc : G4 c c = G c c := by
+        rw [F1 c c (by omega) (by omega) (by omega), sw_lt hcj hb1]
+      rw [hcc]
+      congr 2
+      apply sum_congr rfl
+      intro k hk
+      have hk' : k < c := mem_range.mp hk
+      rw [F1 i k hi (by omega) (by omega), F1 k c (by omega) (by omega) (by omega), sw_lt (show k < j by omega) hb1]
+    · have hcj' : c = j := by omega
+      subst hcj'
+      have h44 : G4 c c = G3 c c := by rw [h4 c c hj hj, if_neg (by omega)]
+      rw [h4 i c hi hj, if_pos ⟨rfl, hci⟩, h3 i c hi hj, F3 i (by omega) hi, h44]
+      ring
+
+/-! ### the loop on arrays -/
+
+/-- the Crout invariant after `j` columns: `a` holds U on and above the diagonal and L (unit diagonal implied) below it in
+    columns `< j`, and the rows of the input (`A0`) in the order `ri` in columns `≥ j`. -/
+structure Inv (A0 : Nat → Nat → K) (n j : Nat) (a : Array K) (ri : Array Nat) : Prop where
+  size : a.size = n * n
+  rsize : ri.size = n
+  R : ∀ i c, i < n → c < n → j ≤ c → LA.get a n i c = A0 ri[i]! c
+  U : ∀ i c, c < j → i ≤ c → LA.get a n i c = A0 ri[i]! c - ∑ k ∈ range i, LA.get a n i k * LA.get a n k c
+  L : ∀ i c, c < j → c < i → i < n →
+      LA.get a n i c = (A0 ri[i]! c - ∑ k ∈ range c, LA.get a n i k * LA.get a n k c) / LA.get a n c c
+
+theorem ri_swap (ri : Array Nat) {n b j i : Nat} (hs : ri.size = n) (hb : b < n) (hj : j < n) (hi : i < n) :
+    ((ri.set! b ri[j]!).set! j ri[b]!)[i]! = ri[sw b j i]! := by
+  unfold sw
+  simp only [getElem!_def, Array.set!_eq_setIfInBounds, Array.getElem?_setIfInBounds, Array.size_setIfInBounds]
+  by_cases h1 : j = i
+  · subst h1
+    by_cases h2 : j = b
+    · subst h2; simp [hs, hj]
+    · simp [hs, hj, hb, h2]
+  · by_cases h2 : b = i
+    · subst h2
+      have : ¬ b = j := fun e => h1 e.symm
+      simp [hs, hj, hb, h1]
+    · have h1' : ¬ i = j := fun e => h1 e.symm
+      have h2' : ¬ i = b := fun e => h2 e.symm
+      simp [h1, h2, h1', h2']
+
+/-- one column of `_vnacommon_lu` preserves the invariant -/
+theorem colStep_spec (mag : K → Float) (A0 : Nat → Nat → K) {n j : Nat} (st : LA.LUState K) (hj : j < n)
+    (h : Inv A0 n j st.a st.rowIndex) :
+    Inv A0 n (j + 1) (LA.colStep mag n st j).a (LA.colStep mag n st j).rowIndex ∧
+    ∃ b, j ≤ b ∧ b < n ∧
+      (∀ i, i < n → (LA.colStep mag n st j).rowIndex[i]! = st.rowIndex[sw b j i]!) ∧
+      (∀ k, k < j → LA.get (LA.colStep mag n st j).a n k k = LA.get st.a n k k) ∧
+      (LA.colStep mag n st j).d = (if b ≠ j then st.d * (-1) else st.d) * LA.get (LA.colStep mag n st j).a n j j := by
+  obtain ⟨hs, hrs, hR, hU, hL⟩ := h
+  -- the four phases
+  obtain ⟨hs1, h1a, h1b⟩ := upper_spec st.a hs hj j (le_refl _)
+  obtain ⟨hs2, h2, hb1, hb2⟩ := lower_spec mag st.rowScale (LA.upper n j j st.a) hs1 hj (n - j) (by omega)
+  generalize hr : LA.lower mag st.rowScale n j (n - j) (LA.upper n j j st.a) = r at hs2 h2 hb1 hb2
+  -- row exchange
+  have h3 : ∃ a3 : Array K, a3 = (if r.2.1 != j then LA.swapRows n r.2.1 j n r.1 else r.1) ∧ a3.size = n * n ∧
+      ∀ i c, i < n → c < n → LA.get a3 n i c = LA.get r.1 n (sw r.2.1 j i) c := by
+    refine ⟨_, rfl, ?_, ?_⟩
+    · split
+      · exact (swapRows_spec r.1 hs2 hb2 hj n (le_refl _)).1
+      · exact hs2
+    · intro i c hi hc
+      split
+      · rw [(swapRows_spec r.1 hs2 hb2 hj n (le_refl _)).2 i c hi hc, if_pos hc]
+        unfold sw; split_ifs <;> rfl
+      · next hne =>
+        have : r.2.1 = j := by simpa using hne
+        unfold sw; rw [this]; split_ifs <;> simp_all
+  obtain ⟨a3, ha3, hs3, h3g⟩ := h3
+  have h4 : ∃ a4 : Array K, a4 = (if j + 1 != n then LA.scaleCol n j ((1 : K) / LA.get a3 n j j) (n - (j + 1)) a3 else a3) ∧
+      a4.size = n * n ∧
+      ∀ i c, i < n → c < n → LA.get a4 n i c =
+        if c = j ∧ j < i then LA.get a3 n i j * (1 / LA.get a3 n j j) else LA.get a3 n i c := by
+    refine ⟨_, rfl, ?_, ?_⟩
+    · split
+      · exact (scaleCol_spec a3 _ hs3 hj (n - (j + 1)) (by omega)).1
+      · exact hs3
+    · intro i c hi hc
+      split
+      · rw [(scaleCol_spec a3 _ hs3 hj (n - (j + 1)) (by omega)).2 i c hi hc]
+        by_cases hc' : c = j ∧ j < i
+        · rw [if_pos hc', if_pos ⟨hc'.1, hc'.2, by omega⟩]
+        · rw [if_neg hc', if_neg (fun h => hc' ⟨h.1, h.2.1⟩)]
+      · next hne =>
+        have : j + 1 = n := by simpa using hne
+        rw [if_neg (by omega)]
+  obtain ⟨a4, ha4, hs4, h4g⟩ := h4
+  have hA : (LA.colStep mag n st j).a = a4 := by
+    simp only [LA.colStep, hr]; rw [ha4, ha3]
+  have hRI : ∀ i, i < n → (LA.colStep mag n st j).rowIndex[i]! = st.rowIndex[sw r.2.1 j i]! := by
+    intro i hi
+    simp only [LA.colStep, hr]
+    split
+    · exact ri_swap st.rowIndex hrs hb2 hj hi
+    · next hne =>
+      have : r.2.1 = j := by simpa using hne
+      unfold sw; rw [this]; split_ifs <;> simp_all
+  have hRIs : (LA.colStep mag n st j).rowIndex.size = n := by
+    simp only [LA.colStep, hr]
+    split <;> simp [hrs]
+  have key := col_step_fun (A0 := A0) (n := n) (j := j) (b := r.2.1) (p := fun i => st.rowIndex[i]!)
+    (G := fun i c => LA.get st.a n i c) (G1 := fun i c => LA.get (LA.upper n j j st.a) n i c)
+    (G2 := fun i c => LA.get r.1 n i c) (G3 := fun i c => LA.get a3 n i c) (G4 := fun i c => LA.get a4 n i c)
+    hj hb1 hb2 hR hU hL h1a h1b
+    (by intro i c hi hc
+        rw [h2 i c hi hc]
+        by_cases hc' : c = j ∧ j ≤ i
+        · rw [if_pos hc', if_pos ⟨hc'.1, hc'.2, by omega⟩]
+        · rw [if_neg hc', if_neg (fun h => hc' ⟨h.1, h.2.1⟩)])
+    h3g h4g
+  obtain ⟨kR, kU, kL⟩ := key
+  have hD : (LA.colStep mag n st j).d = (if r.2.1 ≠ j then st.d * (-1) else st.d) * LA.get a3 n j j := by
+    simp only [LA.colStep, hr]
+    rw [← ha3]
+    congr 1
+    by_cases hbj : r.2.1 = j
+    · simp [hbj]
+    · simp [hbj]
+  have h4jj : LA.get a4 n j j = LA.get a3 n j j := by rw [h4g j j hj hj, if_neg (by omega)]
+  rw [hA]
+  refine ⟨⟨hs4, hRIs, ?_, ?_, ?_⟩, r.2.1, hb1, hb2, hRI, ?_, ?_⟩
+  · intro i c hi hc hjc
+    rw [hRI i hi]; exact kR i c hi hc hjc
+  · intro i c hc hic
+    rw [hRI i (by omega)]; exact kU i c hc hic
+  · intro i c hc hci hi
+    rw [hRI i hi]; exact kL i c hc hci hi
+  · intro k hk
+    have hkn : k < n := by omega
+    rw [h4g k k hkn hkn, if_neg (by omega), h3g k k hkn hkn, sw_lt hk hb1, h2 k k hkn hkn, if_neg (by omega),
+      h1a k k hkn hkn (by omega)]
+  · rw [hD, h4jj]
+
+theorem luLoop_inv (mag : K → Float) (A0 : Nat → Nat → K) {n : Nat} (st : LA.LUState K)
+    (h : Inv A0 n 0 st.a st.rowIndex) (j : Nat) (hj : j ≤ n) :
+    Inv A0 n j (LA.luLoop mag n j st).a (LA.luLoop mag n j st).rowIndex := by
+  induction j with
+  | zero => exact h
+  | succ m ih => exact (colStep_spec mag A0 _ (by omega) (ih (by omega))).1
+
+/-! ### the theorem about `_vnacommon_lu` -/
+
+theorem sum_range_eq_fin {n i : Nat} (hi : i ≤ n) (f : Nat → K) :
+    ∑ k ∈ range i, f k = ∑ k : Fin n, if (k : Nat) < i then f k else 0 := by
+  rw [Fin.sum_univ_eq_sum_range (fun k => if k < i then f k else 0) n, ← Finset.sum_filter]
+  congr 1
+  ext k
+  simp only [mem_range, mem_filter]
+  omega
+
+theorem inv_init (a0 : Array K) {n : Nat} (hs : a0.size = n * n) :
+    Inv (fun i c => LA.get a0 n i c) n 0 a0 (Array.range n) := by
+  refine ⟨hs, by simp, ?_, fun _ _ h => absurd h (Nat.not_lt_zero _), fun _ _ h => absurd h (Nat.not_lt_zero _)⟩
+  intro i c hi _ _
+  simp [hi]
+
+/-- what `_vnacommon_lu` leaves in `a`, read as the two triangular factors -/
+def Lmat (a : Array K) (n : Nat) : Matrix (Fin n) (Fin n) K :=
+  fun i c => if (c : Nat) < i then LA.get a n i c else if c = i then 1 else 0
+def Umat (a : Array K) (n : Nat) : Matrix (Fin n) (Fin n) K :=
+  fun i c => if (i : Nat) ≤ c then LA.get a n i c else 0
+/-- the input matrix with its rows in the order the returned `row_index` gives -/
+def Pmat (a0 : Array K) (ri : Array Nat) (n : Nat) : Matrix (Fin n) (Fin n) K :=
+  fun i c => LA.get a0 n ri[(i : Nat)]! c
+
+/-- **`_vnacommon_lu` factors the row-permuted input** (exact arithmetic, every n, every pivot choice the magnitude function
+    makes): when none of the pivots it divided by is zero, the array it returns holds L (below the diagonal, unit diagonal
+    implied) and U (on and above) with `L U = P A`, `P` given by the returned row index. -/
+theorem lu_factors (mag : K → Float) (a0 : Array K) (n : Nat) (hs : a0.size = n * n)
+    (hp : ∀ i, i < n → LA.get (LA.lu mag a0 n).1 n i i ≠ 0) :
+    Lmat (LA.lu mag a0 n).1 n * Umat (LA.lu mag a0 n).1 n = Pmat a0 (LA.lu mag a0 n).2.1 n := by
+  have hI := luLoop_inv mag (fun i c => LA.get a0 n i c)
+    { a := a0, rowIndex := Array.range n, rowScale := LA.rowScales mag a0 n, d := 1 } (inv_init a0 hs) n (le_refl _)
+  obtain ⟨_, _, _, hU, hL⟩ := hI
+  have ha : (LA.lu mag a0 n).1 = (LA.luLoop mag n n
+      { a := a0, rowIndex := Array.range n, rowScale := LA.rowScales mag a0 n, d := 1 }).a := rfl
+  have hr : (LA.lu mag a0 n).2.1 = (LA.luLoop mag n n
+      { a := a0, rowIndex := Array.range n, rowScale := LA.rowScales mag a0 n, d := 1 }).rowIndex := rfl
+  rw [ha] at hp ⊢
+  rw [hr]
+  generalize (LA.luLoop mag n n { a := a0, rowIndex := Array.range n, rowScale := LA.rowScales mag a0 n, d := 1 }) = st
+    at hp hU hL ⊢
+  apply Libvna.LU.lu_of_recurrence
+  · intro i; simp [Lmat]
+  · intro i j hij
+    have h1 : ¬ ((j : Nat) < i) := by have := Fin.lt_def.mp hij; omega
+    have h2 : ¬ (j = i) := fun e => by subst e; exact absurd hij (lt_irrefl _)
+    simp [Lmat, h1, h2]
+  · intro i j hji
+    have h1 : ¬ ((i : Nat) ≤ j) := by have := Fin.lt_def.mp hji; omega
+    simp [Umat, h1]
+  · intro i j hij
+    have hij' : (i : Nat) ≤ j := Fin.le_def.mp hij
+    have := hU i j j.isLt hij'
+    simp only [Umat, Pmat, if_pos hij']
+    rw [this, sum_range_eq_fin (le_of_lt i.isLt)]
+    congr 1
+    apply Finset.sum_congr rfl
+    intro k _
+    by_cases hk : (k : Nat) < i
+    · have hk' : k < i := Fin.lt_def.mpr hk
+      have hkj : (k : Nat) ≤ j := by omega
+      simp [Lmat, hk, hk', hkj]
+    · have hk' : ¬ k < i := fun h => hk (Fin.lt_def.mp h)
+      simp [hk, hk']
+  · intro i j hji
+    have hji' : (j : Nat) < i := Fin.lt_def.mp hji
+    have := hL i j j.isLt hji' i.isLt
+    have hpj := hp j j.isLt
+    simp only [Lmat, Umat, Pmat, if_pos hji', if_pos (le_refl (j : Nat))]
+    rw [this, div_mul_cancel₀ _ hpj, sum_range_eq_fin (le_of_lt j.isLt)]
+    congr 1
+    apply Finset.sum_congr rfl
+    intro k _
+    by_cases hk : (k : Nat) < j
+    · have hk' : k < j := Fin.lt_def.mpr hk
+      have hki : (k : Nat) < i := by omega
+      have hkj : (k : Nat) ≤ j := by omega
+      simp [hk, hk', hki, hkj]
+    · have hk' : ¬ k < j := fun h => hk (Fin.lt_def.mp h)
+      simp [hk, hk']
+
+/-! ### the returned row index is a permutation and the returned determinant is the determinant -/
+
+/-- bookkeeping of `row_index` and `d`: the row index is a permutation π of 0..n-1 and d = sign π · (product of the pivots so far) -/
+def DInv (n j : Nat) (a : Array K) (ri : Array Nat) (d : K) : Prop :=
+  ∃ π : Equiv.Perm (Fin n), (∀ i : Fin n, ri[(i : Nat)]! = ((π i : Fin n) : Nat)) ∧
+    d = (((Equiv.Perm.sign π : ℤˣ) : ℤ) : K) * ∏ k ∈ range j, LA.get a n k k
+
+theorem sw_eq_swap {n b j : Nat} (hb : b < n) (hj : j < n) (i : Fin n) :
+    sw b j i = ((Equiv.swap (⟨b, hb⟩ : Fin n) ⟨j, hj⟩ i : Fin n) : Nat) := by
+  rw [Equiv.swap_apply_def]
+  unfold sw
+  by_cases h1 : (i : Nat) = b
+  · have : i = ⟨b, hb⟩ := Fin.ext h1
+    rw [if_pos h1, if_pos this]
+  · have h1' : ¬ i = ⟨b, hb⟩ := fun e => h1 (by rw [e])
+    rw [if_neg h1, if_neg h1']
+    by_cases h2 : (i : Nat) = j
+    · have : i = ⟨j, hj⟩ := Fin.ext h2
+      rw [if_pos h2, if_pos this]
+    · have h2' : ¬ i = ⟨j, hj⟩ := fun e => h2 (by rw [e])
+      rw [if_neg h2, if_neg h2']
+
+theorem luLoop_full (mag : K → Float) (A0 : Nat → Nat → K) {n : Nat} (st : LA.LUState K)
+    (h : Inv A0 n 0 st.a st.rowIndex) (hd : DInv n 0 st.a st.rowIndex st.d) (j : Nat) (hj : j ≤ n) :
+    Inv A0 n j (LA.luLoop mag n j st).a (LA.luLoop mag n j st).rowIndex ∧
+    DInv n j (LA.luLoop mag n j st).a (LA.luLoop mag n j st).rowIndex (LA.luLoop mag n j st).d := by
+  induction j with
+  | zero => exact ⟨h, hd⟩
+  | succ m ih =>
+    obtain ⟨hI, π, hπ, hdm⟩ := ih (by omega)
+    have hm : m < n := by omega
+    obtain ⟨hI', b, hb1, hb2, hRI, hdiag, hd'⟩ := colStep_spec mag A0 (LA.luLoop mag n m st) hm hI
+    have e : LA.luLoop mag n (m + 1) st = LA.colStep mag n (LA.luLoop mag n m st) m := rfl
+    rw [e]
+    refine ⟨hI', π * Equiv.swap ⟨b, hb2⟩ ⟨m, hm⟩, ?_, ?_⟩
+    · intro i
+      rw [hRI i i.isLt, Equiv.Perm.mul_apply, ← hπ, sw_eq_swap hb2 hm i]
+    · rw [hd', Finset.prod_range_succ]
+      have hprod : ∏ k ∈ range m, LA.get (LA.colStep mag n (LA.luLoop mag n m st) m).a n k k
+          = ∏ k ∈ range m, LA.get (LA.luLoop mag n m st).a n k k :=
+        Finset.prod_congr rfl (fun k hk => hdiag k (mem_range.mp hk))
+      rw [hprod, Equiv.Perm.sign_mul, Equiv.Perm.sign_swap', hdm]
+      by_cases hbm : b = m
+      · subst hbm
+        simp
+        ring
+      · have : ¬ (⟨b, hb2⟩ : Fin n) = ⟨m, hm⟩ := fun e => hbm (Fin.mk.inj_iff.mp e)
+        simp only [hbm, this, ne_eq, not_false_eq_true, if_true, if_false]
+        push_cast
+        ring
+
+/-- the input as a matrix -/
+def Amat (a0 : Array K) (n : Nat) : Matrix (Fin n) (Fin n) K := fun i c => LA.get a0 n i c
+
+/-- **the determinant `_vnacommon_lu` returns is the determinant of its input** (exact arithmetic, no pivot zero), and the
+    row index it returns is a permutation -/
+theorem lu_det (mag : K → Float) (a0 : Array K) (n : Nat) (hs : a0.size = n * n)
+    (hp : ∀ i, i < n → LA.get (LA.lu mag a0 n).1 n i i ≠ 0) :
+    (LA.lu mag a0 n).2.2 = (Amat a0 n).det ∧
+    ∃ π : Equiv.Perm (Fin n), ∀ i : Fin n, (LA.lu mag a0 n).2.1[(i : Nat)]! = ((π i : Fin n) : Nat) := by
+  have hf := lu_factors mag a0 n hs hp
+  have hd0 : DInv n 0 a0 (Array.range n) (1 : K) := ⟨1, fun i => by simp, by simp⟩
+  obtain ⟨_, π, hπ, hd⟩ := luLoop_full mag (fun i c => LA.get a0 n i c)
+    { a := a0, rowIndex := Array.range n, rowScale := LA.rowScales mag a0 n, d := 1 } (inv_init a0 hs) hd0 n (le_refl _)
+  have ha : (LA.lu mag a0 n).1 = (LA.luLoop mag n n
+      { a := a0, rowIndex := Array.range n, rowScale := LA.rowScales mag a0 n, d := 1 }).a := rfl
+  have hr : (LA.lu mag a0 n).2.1 = (LA.luLoop mag n n
+      { a := a0, rowIndex := Array.range n, rowScale := LA.rowScales mag a0 n, d := 1 }).rowIndex := rfl
+  have hdd : (LA.lu mag a0 n).2.2 = (LA.luLoop mag n n
+      { a := a0, rowIndex := Array.range n, rowScale := LA.rowScales mag a0 n, d := 1 }).d := rfl
+  rw [← ha] at hd
+  rw [← hr] at hπ
+  rw [← hdd] at hd
+  refine ⟨?_, π, hπ⟩
+  -- det (P A) = product of the pivots
+  have hdet := Libvna.LU.det_of_lu _ _ _ hf (by intro i; simp [Lmat])
+    (by intro i j hij
+        have h1 : ¬ ((j : Nat) < i) := by have := Fin.lt_def.mp hij; omega
+        have h2 : ¬ (j = i) := fun e => by subst e; exact absurd hij (lt_irrefl _)
+        simp [Lmat, h1, h2])
+    (by intro i j hji
+        have h1 : ¬ ((i : Nat) ≤ j) := by have := Fin.lt_def.mp hji; omega
+        simp [Umat, h1])
+  -- P A is A with its rows permuted by π
+  have hP : Pmat a0 (LA.lu mag a0 n).2.1 n = (Amat a0 n).submatrix π id := by
+    ext i c
+    simp [Pmat, Amat, hπ i]
+  rw [hP, Matrix.det_permute] at hdet
+  have hprod : ∏ i : Fin n, Umat (LA.lu mag a0 n).1 n i i = ∏ k ∈ range n, LA.get (LA.lu mag a0 n).1 n k k := by
+    rw [← Fin.prod_univ_eq_prod_range (fun k => LA.get (LA.lu mag a0 n).1 n k k) n]
+    apply Finset.prod_congr rfl
+    intro i _
+    simp [Umat]
+  rw [hd, ← hprod, ← hdet, ← mul_assoc]
+  have hsq : (((Equiv.Perm.sign π : ℤˣ) : ℤ) : K) * (((Equiv.Perm.sign π : ℤˣ) : ℤ) : K) = 1 := by
+    rw [← Int.cast_mul, ← Units.val_mul, Int.units_mul_self]; simp
+  rw [hsq, one_mul]
+
+end Libvna.LULoop
+
+namespace Libvna.LULoop
+/-- the hypotheses of `lu_factors` / `lu_det` are satisfiable (whatever the magnitude function does) -/
+example (mag : ℚ → Float) :
+    (#[(5 : ℚ)] : Array ℚ).size = 1 * 1 ∧ ∀ i, i < 1 → LA.get (LA.lu mag #[(5 : ℚ)] 1).1 1 i i ≠ 0 := by
+  refine ⟨rfl, ?_⟩
+  intro i hi
+  have : i = 0 := by omega
+  subst this
+  have h : (LA.lu mag #[(5 : ℚ)] 1).1 = #[(5 : ℚ)] := by
+    simp only [LA.lu, LA.luLoop, LA.colStep, LA.upper, LA.lower, LA.dotSub]
+    by_cases hc : 0.0 < (LA.rowScales mag #[(5 : ℚ)] 1)[0]! * mag 5 <;> simp [hc, LA.set, LA.get]
+  rw [h]
+  simp [LA.get]
 end Libvna.LULoop
